@@ -50,6 +50,82 @@ def _fl(j):
 
 
 # ----------------------------------------------------------------------------------------------
+# isolation: a pristine process, forked before this process runs its first case, forks one short-lived child per
+# request (a few ms) which runs the case on the real code and returns the observation.  Used (a) for the first
+# ISO_ALWAYS histories of a run unconditionally, (b) for ANY case that disagrees in-process: the witness reported is
+# the isolated observation whenever the case also fails alone (self-contained, replayable), and is labelled
+# "only after the earlier cases of this run" when it does not (state kept between calls by the library).
+# ----------------------------------------------------------------------------------------------
+ISO_ALWAYS = 150
+_ISO = {"zygote": None, "failed": False, "n": 0}
+
+
+def zygote_start():
+    import os
+    import json
+    if _ISO["zygote"] is not None or _ISO["failed"]:
+        return
+    try:
+        req_r, req_w = os.pipe()
+        res_r, res_w = os.pipe()
+        pid = os.fork()
+    except Exception:
+        _ISO["failed"] = True
+        return
+    if pid:
+        os.close(req_r)
+        os.close(res_w)
+        _ISO["zygote"] = (pid, os.fdopen(req_w, "w"), os.fdopen(res_r, "r"))
+        return
+    try:                                   # ---- zygote
+        os.close(req_w)
+        os.close(res_r)
+        import audiolazy          # noqa: imported once, no design ever called here; the children inherit it
+        inp = os.fdopen(req_r, "r")
+        while True:
+            line = inp.readline()
+            if not line:
+                break
+            child = os.fork()
+            if child == 0:
+                try:
+                    try:
+                        obs = _b().impl_here(json.loads(line))
+                    except Exception as e:
+                        obs = {"err": "UNMAPPED:" + err_kind(e)}
+                    os.write(res_w, (json.dumps(obs) + "\n").encode())
+                finally:
+                    os._exit(0)
+            _, status = os.waitpid(child, 0)
+            if status != 0:
+                os.write(res_w, (json.dumps({"err": "UNMAPPED:child-died"}) + "\n").encode())
+    finally:
+        os._exit(0)
+
+
+def isolated_impl(c):
+    """the observation of case c run alone in a fresh process; None when isolation is unavailable"""
+    import json
+    zygote_start()
+    z = _ISO["zygote"]
+    if z is None:
+        return None
+    _, out, inp = z
+    try:
+        out.write(json.dumps(c) + "\n")
+        out.flush()
+        line = inp.readline()
+    except Exception:
+        line = ""
+    if not line:
+        _ISO["zygote"], _ISO["failed"] = None, True
+        return None
+    obs = json.loads(line)
+    obs["isolated"] = True
+    return obs
+
+
+# ----------------------------------------------------------------------------------------------
 # signals (compact description, expanded on both sides)
 # ----------------------------------------------------------------------------------------------
 def sig_values(sig):
@@ -453,9 +529,18 @@ def impl_combhist(c):
         try:
             delay = float(c["delay"]) if c.get("dtype") == "float" else c["delay"]
             filt = al.comb[c["strategy"]](delay, _comb_param(c))
+            # a run with a parameter of its own uses another filter object of the same strategy and delay (one object
+            # per distinct parameter, built in order of first use)
+            filts = {}
+            for r in c["runs"]:
+                if "param" in r:
+                    k = repr((r["param"], r.get("ptype", "float")))
+                    if k not in filts:
+                        filts[k] = al.comb[c["strategy"]](delay, _comb_param(r))
             sigs = [xs_of(r) for r in c["runs"]]
             objs = [_signal_obj(xs, r.get("flav", "list")) for xs, r in zip(sigs, c["runs"])]
-            its = [iter(filt(o)) for o in objs]
+            its = [iter((filts[repr((r["param"], r.get("ptype", "float")))] if "param" in r else filt)(o))
+                   for o, r in zip(objs, c["runs"])]
             outs = [[] for _ in its]
             done = [False] * len(its)
             for k in c["order"]:
@@ -476,7 +561,7 @@ def impl_combhist(c):
 
 def request_combhist(c):
     return {"entry": "multi", "cases": [
-        {"entry": "comb", "strategy": c["strategy"], "delay": c["delay"], "param": c["param"],
+        {"entry": "comb", "strategy": c["strategy"], "delay": c["delay"], "param": r.get("param", c["param"]),
          "xs": [_f(x) for x in xs_of(r)]} for r in c["runs"]]}
 
 
@@ -693,6 +778,19 @@ def gen_hist(rng, tier, scale=1):
                                fl, "bw", "rr"))
             cases.append(_bank(rng, [_design("comb", "fb", 2), _design("comb", "ff", 5), _design("comb", "fb", 64)],
                                fl, "alpha", "rand"))
+        # twins: two EQUAL but distinct parameter objects (equal tuples hash alike; two controls holding the same value,
+        # one of which is changed later), one design each
+        for fl in ("tuple", "list", "ctrl", "Stream", "thub"):
+            for d, role in ((_design("resonator", "poles_exp"), "bw"), (_design("resonator", "freq_z_exp"), "freq"),
+                            (_design("lowpass", "z"), "freq"), (_design("highpass", "pole_exp"), "freq"),
+                            (_design("comb", "fb", 2), "alpha"), (_design("klapuri"), "bw")):
+                w = "p1" if _roles(d)[0] == role else "p2"
+                if fl not in STREAMISH and needs_stream(d, w):
+                    continue
+                c = _bank(rng, [d, d], fl, role, "rr", per=2, nvals=2)
+                c["srcs"].append(dict(c["srcs"][0]))
+                c["dsgs"][1] = dict(c["dsgs"][1], **{w: {"src": 1}})
+                cases.append(c)
         # a call that raises in the middle of a history (comb with a non-integer delay, resonator / klapuri with
         # bandwidth None) while the shared object is in use by two other designs
         for fl in STREAMISH + ("gen",):
@@ -868,6 +966,12 @@ def _combhist(rng, st, d, nruns, orderkind, flavs):
     else:
         order = [k for k, r in enumerate(runs) for _ in range(r["sig"]["n"])]
         rng.shuffle(order)
+    if nruns > 1 and rng.random() < 0.4:
+        # other filter objects of the same strategy and delay (same keys, other coefficients) among the runs
+        for r in runs[1:]:
+            if rng.random() < 0.7:
+                q = rng.choice([3.0 * d, 0.5 * d + 1]) if st == "tau" else rng.choice([0.25, -0.5, 0.875, -1.0])
+                r["param"], r["ptype"] = _f(q), "float"
     c = {"entry": "combhist", "strategy": st, "delay": d, "param": _f(p), "ptype": t, "runs": runs,
          "orderkind": orderkind, "order": order}
     if rng.random() < 0.15:
@@ -1004,6 +1108,8 @@ def shrink_combhist(c):
             yield dict(c, runs=nr, order=order)
         if r.get("flav", "list") != "list":
             yield dict(c, runs=runs[:k] + [dict(r, flav="list")] + runs[k + 1:])
+        if "param" in r:
+            yield dict(c, runs=runs[:k] + [{x: y for x, y in r.items() if x not in ("param", "ptype")}] + runs[k + 1:])
     if c.get("ptype", "float") != "float":
         yield dict(c, ptype="float")
     if c.get("dtype") == "float":
@@ -1070,6 +1176,8 @@ def tally_hist(eng, c, io):
     tk = [o[1] for o in c["ops"] if o[0] == "take"]
     if any(tk[i] != tk[i + 1] for i in range(len(tk) - 1)) and len(set(tk)) > 1:
         eng.count("hist_pattern", "interleaved instants")
+    if any(a["flav"] == b_["flav"] and a["vals"] == b_["vals"] for i, a in enumerate(c["srcs"]) for b_ in c["srcs"][i + 1:]):
+        eng.count("hist_pattern", "two equal but distinct parameter objects")
     if any(d.get("bad") for d in c["dsgs"]):
         eng.count("hist_pattern", "a call that raises (%s) among the builds" % next(d["bad"] for d in c["dsgs"] if d.get("bad")))
     if any(st.get("err") for st in io.get("steps", [])):
@@ -1084,6 +1192,7 @@ def tally_long(eng, c, io):
     elif e == "combhist":
         eng.count("comb_delay_class", delay_class(c["delay"]))
         eng.count("combhist_runs", len(c["runs"]))
+        eng.count("combhist_filter_objects", 1 + len({repr((r["param"], r.get("ptype"))) for r in c["runs"] if "param" in r}))
         eng.count("combhist_order", c.get("orderkind", "?"))
         eng.count("combhist_param_type", c.get("ptype", "float") + ("/float delay" if c.get("dtype") == "float" else ""))
         for r in c["runs"]:
